@@ -189,7 +189,8 @@ def corruptions(rng, texts, prefix, n):
     out = []
     kinds = ["trunc_stmt", "trunc_stmt", "trunc_byte", "splice", "lost_block", "byteflip", "undecodable",
              "empty", "whitespace", "extra_end", "missing_end", "dup_contains", "misplaced_contains",
-             "malformed", "malformed", "self_include", "directory", "binary", "long_line", "crlf_mix"]
+             "malformed", "malformed", "self_include", "directory", "binary", "long_line", "crlf_mix", "ends_in_predoc",
+             "ends_in_predoc"]
     for _ in range(n):
         k = rng.choice(kinds)
         t = rng.choice(texts)
@@ -223,6 +224,11 @@ def corruptions(rng, texts, prefix, n):
                 i = rng.randrange(len(b))
                 b[i:i + 1] = bytes([rng.choice([0xFF, 0xFE, 0xC3, 0x80, 0xA0])])
             out.append((k, _b64(bytes(b))))
+        elif k == "ends_in_predoc":
+            # cut right after a preceding-doc comment (`!>` / `!|`): the entity it documents never comes
+            cut = rng.randrange(1, len(lines))
+            mark = rng.choice(["!>", "!|", "  !> ", "!>"])
+            out.append((k, "\n".join(lines[:cut]) + "\n" + mark + " documentation of something that was cut off\n" + rng.choice(["", "\n", "\n\n"])))
         elif k == "empty":
             out.append((k, ""))
         elif k == "whitespace":
